@@ -223,6 +223,7 @@ struct LoggerHandle
   std::function<void()> flush_bt;
   std::function<void(int)> set_level;
   std::function<void()> remove;
+  std::function<unsigned long long(size_t)> shrink; // shrink_thread_local_queue(c), then the capacity reported
 };
 
 static constexpr quill::MacroMetadata kLogMeta{"be.cpp:1", "drv", "{}{}", nullptr, quill::LogLevel::Dynamic,
@@ -266,6 +267,10 @@ static LoggerHandle make_logger(std::string const& name, std::vector<std::shared
   h.flush_bt = [lg]() { lg->flush_backtrace(); };
   h.set_level = [lg](int v) { lg->set_log_level(static_cast<quill::LogLevel>(v)); };
   h.remove = [lg]() { quill::FrontendImpl<F>::remove_logger(lg); };
+  h.shrink = [](size_t c) -> unsigned long long {
+    quill::FrontendImpl<F>::shrink_thread_local_queue(c);
+    return static_cast<unsigned long long>(quill::FrontendImpl<F>::get_thread_local_queue_capacity());
+  };
   return h;
 }
 
@@ -404,7 +409,7 @@ static size_t parse_simple(std::vector<u64> const& l, size_t i, size_t end, std:
   while (i < end)
   {
     u64 c = l[i];
-    size_t n = (c == 1 || c == 2) ? 6 : (c == 3 || c == 5 || c == 8) ? 1 : (c == 4 || c == 12) ? 4 : (c == 6 || c == 7 || c == 13) ? 2 : (c == 10) ? 0 : (c == 11) ? 6 : 999;
+    size_t n = (c == 1 || c == 2) ? 6 : (c == 3 || c == 5 || c == 8) ? 1 : (c == 4 || c == 12) ? 4 : (c == 6 || c == 7 || c == 13 || c == 14) ? 2 : (c == 10) ? 0 : (c == 11) ? 6 : 999;
     if (n == 999 || i + 1 + n > end) break;
     out.push_back({c, std::vector<u64>(l.begin() + i + 1, l.begin() + i + 1 + n)});
     i += 1 + n;
@@ -426,7 +431,7 @@ static bool busy(u64 t)
 static void exec_simple(Cmd const& c)
 {
   auto const& a = c.a;
-  if ((c.code == 1 || c.code == 2 || c.code == 4 || c.code == 5 || c.code == 11 || c.code == 12) && busy(a[0])) { obs({5, 0}); return; }
+  if ((c.code == 1 || c.code == 2 || c.code == 4 || c.code == 5 || c.code == 11 || c.code == 12 || c.code == 14) && busy(a[0])) { obs({5, 0}); return; }
   switch (c.code)
   {
   case 1:
@@ -465,6 +470,17 @@ static void exec_simple(Cmd const& c)
     w.result = 1;
     bool done = start_cmd(w, [&w, lgi] { g_loggers[lgi].flush(); w.result = 1; });
     obs({5, static_cast<u64>(done ? 1 : 2)});
+    break;
+  }
+  case 14:
+  {
+    // shrink_thread_local_queue(c) on thread a[0], then the capacity the thread reports for its queue
+    Worker& w = worker(a[0]);
+    size_t cap = static_cast<size_t>(a[1]);
+    w.result = 0;
+    bool done = start_cmd(w, [&w, cap] { w.result = static_cast<long>(g_loggers[0].shrink(cap)); });
+    if (done) obs({9, static_cast<u64>(w.result)});
+    else obs({5, 2});
     break;
   }
   case 11:
@@ -525,6 +541,7 @@ static void run_case(std::vector<u64> const& l)
   u64 tinit = l[i++], soft = l[i++], hard = l[i++], grace = l[i++];
   i += 7; // bits, refresh2, catchall, report_first, bt_reset, bt_guard, bt_catch: facts of the source
   u64 fiv = l[i++]; // sink_min_flush_interval in clock ticks (ns), a multiple of one millisecond
+  i += 1;           // follow_chain: a fact of the source
   u64 clock0 = l[i++];
   g_clock.store(static_cast<long long>(clock0));
   g_clock0.store(static_cast<long long>(clock0));
